@@ -212,6 +212,8 @@ def first_failing(conds):
 
 def oracle(case, out):
     """C03 stated directly on what the real node did."""
+    if isinstance(out, dict) and "panic" in out:
+        return [("panic", "the implementation panicked on this case: %s" % str(out["panic"])[:300])]
     if not isinstance(out, dict) or "results" not in out:
         return [("harness", "no result: %r" % (out,))]
     if not pv.is_serial(case):
